@@ -124,11 +124,18 @@ class FakeDType:
 
 
 class FakeNumpy:
+    """ndarray.tobytes contract: order='C' gives the values in logical (row-major) order - a function of the
+    values alone; any other order depends on how the array happens to be laid out in memory."""
+    counter = 0
+
     def __init__(self, data):
         self.data = data
 
     def tobytes(self, order='C'):
-        return self.data
+        if order == 'C':
+            return self.data
+        FakeNumpy.counter += 1
+        return SymBytes([z3.BitVec(f'layout{FakeNumpy.counter}_{k}', 8) for k in range(len(self.data))])
 
 
 class FakeArray:
@@ -370,6 +377,40 @@ def real_dataset_checks(tier):
             if k2 == k0:
                 V(f'real:{conv}:{name}', 'a single edit of a geometry variable changes the cache key', name)
         notes.append(conv)
+    # the key is a function of the values, not of the memory layout of the arrays that hold them
+    for conv in ('cf2d', 'shoc_standard'):
+        ds = _dataset(conv)
+        k0 = key_of(ds)
+        g = [n for n in ds.copy().ems.get_all_geometry_names() if ds[n].ndim == 2][0]
+        alt = ds.copy(deep=True)
+        f = numpy.asfortranarray(ds[g].values)
+        alt[g] = (ds[g].dims, f, dict(ds[g].attrs))
+        if g in ds.coords:
+            alt = alt.set_coords(g)
+        if not (alt[g].values.flags.f_contiguous and alt.identical(ds)):
+            notes.append(f'{conv}: could not build a Fortran-ordered twin')
+        elif key_of(alt) != k0:
+            V(f'real:{conv}:memory-layout', 'identical geometry values give the same key whatever the memory layout of the arrays', g)
+    # histories on ONE dataset object: key, edit a geometry variable in place, key again
+    from emsarray.operations.cache import make_cache_key
+    for conv in ('cf1d', 'ugrid'):
+        ds = _dataset(conv).copy(deep=True)
+        g = 'lon' if conv == 'cf1d' else 'node_x'
+        k1 = make_cache_key(ds)
+        k1b = make_cache_key(ds)
+        if k1 != k1b:
+            V(f'real:{conv}:history', 'the key of an unchanged dataset is stable', 'two calls differ')
+        ds[g].values[0] += 0.5
+        k2 = make_cache_key(ds)
+        fresh = _dataset(conv).copy(deep=True)
+        fresh[g].values[0] += 0.5
+        if k2 == k1:
+            V(f'real:{conv}:history', 'a single edit of a geometry variable changes the cache key', f'in-place edit of {g} after a first call')
+        if k2 != make_cache_key(fresh):
+            V(f'real:{conv}:history', 'datasets with the same geometry get the same key whatever was computed before', f'{g}')
+        ds[g].attrs['note'] = 'edited'
+        if make_cache_key(ds) == k2:
+            V(f'real:{conv}:history', 'a single edit of a geometry variable changes the cache key', f'in-place attribute edit of {g} after earlier calls')
     # other interpreter, other hash seed
     code = ("import sys; sys.path.insert(0, '/repo/src'); sys.path.insert(0, %r); "
             "from harness import c16; import json; "
